@@ -18,10 +18,14 @@ import convdecode
 CAL = {
     "ymd": (None, ("y", "m", "d")),
     "yd": ("__ymd_to_yd", ("y", "d")),
-    "ywd": ("__ymd_to_ywd", ("y", "c", "w")),
+    "ywd": ("__ymd_to_ywd", ("y", "c", "w", "hang")),
     "ymcw": ("__ymd_to_ymcw", ("y", "m", "c", "w")),
 }
 WINDOW = {"d": 400, "w": 60, "b": 130}
+# counts far beyond the window (several years, decades, a century), taken as they are from three starts per class year: state
+# carried from one crossed year to the next (the weekday of 1 January, leap days) has to survive many turns of the carry loops
+FAR = {"d": [731, 1461, 2557, 3653, 7305], "w": [209, 400, 522, 1044, 2087], "b": [261, 1000, 2610]}
+FAR_STARTS = {(1, 1), (6, 15), (12, 31)}
 
 
 def _fields(cal, d):
@@ -31,7 +35,9 @@ def _fields(cal, d):
     if cal == "yd":
         return (d.year, d.timetuple().tm_yday)
     if cal == "ywd":
-        return (iy, iw, iwd)
+        # the helper slot: how far 1 January of the week-year hangs off a Monday (every later use of the value relies on it)
+        hang = {1: 0, 2: -1, 3: -2, 4: -3, 5: 3, 6: 2, 7: 1}[datetime.date(iy, 1, 1).isoweekday()]
+        return (iy, iw, iwd, hang)
     if cal == "ymcw":
         return (d.year, d.month, (d.day - 1) // 7 + 1, iwd)
 
@@ -106,6 +112,8 @@ def _worker(ys):
                 fn = tu.func(fname)
                 W = WINDOW[unit]
                 work = [(-W, W)]
+                if (d.month, d.day) in FAR_STARTS:
+                    work += [(sg * c, sg * c) for c in FAR[unit] for sg in (1, -1)]
                 while work:
                     a, b = work.pop()
                     if a > b:
@@ -169,8 +177,8 @@ def run_parallel(R, tu, rule, todo, every=False, jobs=12):
     for cal, unit, fname in todo:
         key = (fname, cal)
         if key not in bad:
-            R.ob(rule, "%s: for every start of the class years and every count within +-%d the result is the %s date that many %s away"
-                 % (fname, WINDOW[unit], cal, UN[unit]), True)
+            R.ob(rule, "%s: for every start of the class years and every count within +-%d, and for the far counts +-%s from three "
+                 "starts a year, the result is the %s date that many %s away" % (fname, WINDOW[unit], FAR[unit], cal, UN[unit]), True)
         else:
             lst = sorted(bad[key])
             day, t, got, exp = lst[0]
